@@ -9,9 +9,12 @@ EVENT_SRCS = ["events/events_network_selectstats.c", "datastruct/timerqueue.c", 
 # util/monoclock.c is replaced by the harness's scripted clock, poll() by -Wl,--wrap=poll.
 
 BITS = [("r", 20), ("w", 20), ("rw", 14), ("e", 8), ("h", 8), ("re", 4), ("wh", 4), ("rwe", 4), ("eh", 3), ("rweh", 3), ("-", 6)]
-# let time pass before a poll fails with EINTR: this fires on the unchanged tree (notes/C05.md, finding 1 = known
-# finding F11 in known_findings.json, reported as KNOWN-FINDING); VERIF_EVENTS_EINTR_TIME=0 leaves such cases out
+# let time pass before a poll fails with EINTR (on by default; VERIF_EVENTS_EINTR_TIME=0 leaves the time out): on the tree
+# before the repair of finding F11 (notes/C05.md finding 1, notes/F11-fix.md) poll was restarted with the full timeout,
+# which the C05 monitor reports as soon as such a case hits a finite wait
 EINTR_TIME = os.environ.get("VERIF_EVENTS_EINTR_TIME", "1") != "0"
+# time passing before the signal: 0, less than / exactly / more than a millisecond, whole timer periods of USECS
+EINTR_ADV = [0, 1, 1, 999, 1000, 1000, 1001, 1500, 2000, 999999, 1000000, 2500000]
 USECS = [0, 0, 1, 999, 1000, 1001, 1500, 2000, 999999, 1000000, 1000001, 2500000, 2147483000000, 2147483000001, 5000]
 
 
@@ -184,8 +187,9 @@ class G:
     def poll_answer(self):
         r = self.r
         if r.chance(1, 16):
-            # EINTR_TIME: see notes/C05.md (finding: poll is restarted with the full timeout after EINTR)
-            self.ops.append("pollintr %d" % (r.choice([0, 1, 1000]) if EINTR_TIME else 0))
+            # one signal or several in a row (the wait is then cut down step by step)
+            for _ in range(r.weighted([(1, 60), (2, 25), (4, 15)])):
+                self.ops.append("pollintr %d" % (r.choice(EINTR_ADV) if EINTR_TIME else 0))
             return
         adv = r.choice([0, 0, 1, 999, 1000, 1001, 1500, 1000000, 3000000])
         k = r.weighted([(0, 10), (1, 25), (2, 20), (3, 15), (6, 10), (len(self.fdpool), 8)])
@@ -265,6 +269,7 @@ def classify(case, out):
         fired = 0
         polls = 0
         kinds = set()
+        prev_eintr = None
         for t in toks:
             f = t.split(":")
             if f[0] == "cb":
@@ -276,6 +281,15 @@ def classify(case, out):
                     tags.append("stop:status@%s" % (fired if fired < 4 else "4+"))
             elif f[0] == "poll":
                 polls += 1
+                if f[-1] == "eintr" and f[2] != "0":
+                    # time passed before the signal: during a finite wait / an infinite one / the zero-timeout re-poll
+                    tags.append("poll:eintr+time:" + ("timed" if f[1] not in ("0", "-1") else "t=" + f[1]))
+                if prev_eintr is not None:
+                    if f[-1] == "eintr":
+                        tags.append("poll:eintr-chain")
+                    if prev_eintr not in ("0", "-1"):
+                        tags.append("poll:after-eintr:" + ("expired" if f[1] == "0" else "same" if f[1] == prev_eintr else "less"))
+                prev_eintr = f[1] if f[-1] == "eintr" else None
                 if f[-1] != "ok":
                     tags.append("poll:" + f[-1])
                 else:
@@ -307,7 +321,8 @@ def component(monitor):
         rule="programs of 1..80 registrations (immediate with all 32 priorities / socket read+write on 1..40 descriptors / "
              "timers with tied deadlines, 0, ms boundaries, INT_MAX/1000 s) whose callbacks run scripts (register, cancel incl. the "
              "descriptor being scanned and the last pollfd entries, re-arm themselves, reset, interrupt, clock, non-zero status), "
-             "interleaved with scripted poll answers (ready sets with ERR/HUP, EINTR, clock advance, level-triggered repeats) and "
+             "interleaved with scripted poll answers (ready sets with ERR/HUP, EINTR -- also several in a row, with 0 / <1 ms / "
+             "exactly 1 ms / whole timer periods passing before the signal --, clock advance, level-triggered repeats) and "
              "events_run calls; profiles mixed/net/imm/tm/status; non-trivial = >= 2 runs and >= 2 register/cancel/reset calls; "
              "L1 = the %s monitor over the implementation's trace, L2 = equality with the model's trace and white-box state" % monitor.upper(),
         classify=classify, monitor_args=["eventsmon", monitor], ldflags=["-Wl,--wrap=poll"])
